@@ -65,6 +65,7 @@ def loadF (W : List WidenEntry) (o : Operand) (a b : FArg) : Option Float :=
      | _ => none)
   | .genValue, .float | .rval, .float => arg.float?
   | .genValue, .none => arg.float?
+  | .genValue, .interface | .rval, .interface => arg.float?
   | .lit1, _ => some 1.0
   | _, _ => none
 
